@@ -45,7 +45,7 @@ def correspondence(ctx, thorough, search):
                     iid, variant = a.split(" ")[:2]
                     wasm = open(os.path.join(inp, iid + ".wasm"), "rb").read().hex()
                     kind = "parallel-serial-verdict-differs" if a.split(" ")[2] != b.split(" ")[2] else ("parallel-serial-error-differs" if a.split(" ")[2] == "err" else "parallel-serial-bytes-differ")
-                    ov.append({"class": kind, "what": "%s (variant %s: 0 emit, 1 gc+emit, 2 emit with code-transform, 3 one located instruction duplicated into every function + a custom section dumping the code transform), RAYON_NUM_THREADS=%d run %d: serial `%s` vs parallel `%s`" % (names.get(iid, iid), variant, t, rep, a[:160], b[:160]),
+                    ov.append({"class": kind, "what": "%s (variant %s: 0 emit, 1 gc+emit, 2 emit with code-transform, 3 one located instruction duplicated into every function + a custom section dumping the code transform, 4 emit with synthetic names for anonymous items), RAYON_NUM_THREADS=%d run %d: serial `%s` vs parallel `%s`" % (names.get(iid, iid), variant, t, rep, a[:160], b[:160]),
                                "input": {"module_hex": wasm, "threads": t}, "replay_cmd": "parse (+gc) + emit_wasm with walrus built with and without --features parallel, RAYON_NUM_THREADS=<threads>"})
                     break
             if len(got) != len(ref):
